@@ -24,4 +24,5 @@ PROPERTY P_NeverStale
 PROPERTY P_BoundsRespected
 PROPERTY P_NoDnssecLeak
 PROPERTY P_NoPanic
+PROPERTY P_ViewIsWire
 CHECK_DEADLOCK FALSE
